@@ -21,7 +21,7 @@ from vlib.front import unparse, dotted, const_value, AnchorMissing
 from vlib.shape import Shape, Space, Ix, Q, D, BoolT, StrT, NoneT, SizeOf, UNK, is_unk, Arr, Rec, Tup, ListT, DictT, B
 from obligations.shape_tables import (model_attrs, COMMON_SIGS, M, AR, Tmpl, Clu, Chan, Samp, Spike, Loc, LocT, PC, FeatRow, FEAT, RAW)
 
-FLOOR = 21
+FLOOR = 16
 EXPLANATION = ('shape engine over get_features / get_template_features / compute_features with from_sparse and _index_of replaced by their '
                'signatures (checked against their bodies by structural rules): which table an index vector points into, which axis it is '
                'applied to, and the axes of the results')
@@ -128,17 +128,35 @@ def run(ctx):
     fs = repo.func(M, 'from_sparse')
     dp, cp, chp = fs.params[:3]
     src = ast.unparse(fs.node)
+    PF = Pat(fs)
     red = [x for x in fs.nodes(ast.Assign) if isinstance(x.targets[0], ast.Subscript) and const_value(x.value) == -1]
     okr = bool(red) and 'np.isin(' in unparse(red[0].targets[0]) and '~' in unparse(red[0].targets[0]) and chp in unparse(red[0].targets[0])
+    red2 = PF.stmt('V_c = np.where(np.isin(V_c, %s), V_c, -1)' % chp) or PF.stmt('V_c2 = np.where(np.isin(V_c, %s), V_c, -1)' % chp) or \
+        PF.stmt('V_c = np.where(~np.isin(V_c, %s), -1, V_c)' % chp) or PF.stmt('V_c[np.isin(V_c, %s, invert=True)] = -1' % chp)
+    any_isin = any(isinstance(c_, ast.Call) and dotted(c_.func) in ('np.isin', 'np.in1d') and not any(isinstance(a_, ast.Assert) for a_ in fs.ancestors(c_)) for c_ in fs.calls())
     uses_discard = '-1' in src
-    tri(okr, not red and uses_discard, red[0] if red else 'from_sparse', 'stored columns that were not requested are redirected to the discard slot (-1)',
+    tri(okr or red2 is not None, not red and red2 is None and uses_discard and not any_isin, red[0] if red else (red2 or 'from_sparse'), 'stored columns that were not requested are redirected to the discard slot (-1)',
         'stored columns that were not requested are not redirected to the discard slot: their values land in a requested column or raise', fs)
     look = [c for c in fs.calls() if dotted(c.func) == '_index_of']
-    lt = unparse(look[0].args[1]).replace(' ', '') if look else ''
+    lt = unparse(fs.expand(look[0].args[1])).replace(' ', '') if look else ''
     tri(lt == 'np.r_[%s,-1]' % chp, lt in ('np.r_[-1,%s]' % chp, chp, 'np.r_[%s]' % chp), look[0] if look else 'from_sparse', 'lookup table = requested channels followed by the discard value',
         'the lookup table is `%s`, expected the requested channels followed by the discard value (discard LAST, matching the dropped column)' % lt, fs)
     shp = [x for x in fs.nodes(ast.Assign) if isinstance(x.targets[0], ast.Subscript) and unparse(x.targets[0]).startswith('out_shape[')]
     st_ = unparse(shp[0].value).replace(' ', '') if shp else ''
+    if not shp:
+        # tuple form: out_shape = (n_spikes, <columns>) + data.shape[2:]
+        tup = PF.stmt('V_shape = (ANY, E_ncols) + %s.shape[2:]' % dp) or PF.stmt('V_shape = (ANY, E_ncols, REST)')
+        z_ = [c for c in fs.calls() if dotted(c.func) == 'np.zeros' and c.args]
+        if tup is None and z_:
+            zx = fs.expand(z_[0].args[0])
+            if isinstance(zx, ast.BinOp) and isinstance(zx.left, ast.Tuple) and len(zx.left.elts) == 2:
+                tup = z_[0]
+                st_ = unparse(fs.expand(zx.left.elts[1])).replace(' ', '')
+        elif tup is not None:
+            v_ = tup.value.left if isinstance(tup.value, ast.BinOp) else tup.value
+            st_ = unparse(fs.expand(v_.elts[1])).replace(' ', '')
+        shp = [tup] if tup is not None else []
+        st_ = st_.replace('len(%s)' % chp, 'n_channels')
     tri(st_ in ('n_channels+1', '1+n_channels', 'len(%s)+1' % chp), st_ in ('n_channels', 'len(%s)' % chp, 'n_channels+2'), shp[0] if shp else 'from_sparse',
         'the dense array has one extra (discard) column', 'the dense array has `%s` columns, expected requested + 1 (the discard column)' % st_, fs)
     sto = [x for x in fs.nodes(ast.Assign) if isinstance(x.targets[0], ast.Subscript) and unparse(x.targets[0].value) == 'out' and unparse(x.value) == dp]
@@ -147,10 +165,16 @@ def run(ctx):
         'values are stored as `%s`, expected out[row, looked-up column, ...]' % so, fs)
     xr = [x for x in fs.nodes(ast.Assign) if unparse(x.targets[0]) == 'x']
     xt = unparse(xr[0].value).replace(' ', '') if xr else ''
-    tri(xt == 'np.tile(np.arange(n_spikes)[:,np.newaxis],(1,n_channels_loc))', xt in ('np.tile(np.arange(n_channels_loc)[:,np.newaxis],(1,n_spikes))', 'np.tile(np.arange(n_spikes)[np.newaxis,:],(n_channels_loc,1))'),
+    rep_form = bool(xr) and Pat().any(['np.repeat(np.arange(n_spikes), n_channels_loc).reshape(ANY)', 'np.arange(n_spikes)[:, np.newaxis] * np.ones((1, n_channels_loc), dtype=int)',
+                                         'np.broadcast_to(np.arange(n_spikes)[:, np.newaxis], (n_spikes, n_channels_loc))', 'np.arange(n_spikes)[:, np.newaxis]', 'np.arange(n_spikes)[:, None]'], xr[0].value)
+    tri(xt == 'np.tile(np.arange(n_spikes)[:,np.newaxis],(1,n_channels_loc))' or rep_form, xt in ('np.tile(np.arange(n_channels_loc)[:,np.newaxis],(1,n_spikes))', 'np.tile(np.arange(n_spikes)[np.newaxis,:],(n_channels_loc,1))'),
         xr[0] if xr else 'from_sparse', 'row indices are 0..n-1 repeated across the stored slots', 'the row index grid is `%s`' % xt, fs)
     drop = [x for x in fs.nodes(ast.Assign) if unparse(x.targets[0]) == 'out' and isinstance(x.value, ast.Subscript) and unparse(x.value.value) == 'out']
     dt = unparse(drop[0].value).replace(' ', '') if drop else ''
+    if not drop:
+        rdrop = [r_ for r_ in fs.returns() if isinstance(r_.value, ast.Subscript) and unparse(r_.value.value) == 'out']
+        if rdrop:
+            drop, dt = rdrop, unparse(rdrop[0].value).replace(' ', '')
     tri(dt == 'out[:,:-1,...]', dt in ('out[:,1:,...]', 'out[:-1,...]', 'out[:,:-2,...]') or (not drop and bool(shp)), drop[0] if drop else 'from_sparse', 'the LAST (discard) column is dropped',
         'the column dropped is `%s`, not the last one where discarded values were written' % (dt or 'none'), fs)
     loc = [x for x in fs.nodes(ast.Assign) if unparse(x.targets[0]) == 'cols_loc']
